@@ -22,7 +22,8 @@ CHECK_MODULE = "Check.C13"
 COQ_IMPORTS = "Model.Precision"
 COQ_PRELUDE = "From Coq Require Import PrimFloat."
 SHARD = 400
-RULE = ("(n, x): n in 0..6, x signed in a wide range: random doubles, k*10^-n (already rounded, also after float "
+RULE = ("[also: overlaps of 0 / 2 / 3 ticks at every precision and of one tick at precision 0: intersects, & and co_iter agree] " +
+        "(n, x): n in 0..6, x signed in a wide range: random doubles, k*10^-n (already rounded, also after float "
         "multiplication), ties k+0.5 units and their float neighbours (nextafter), negative times; observed bit-for-bit "
         "(float.hex): Segment(x, x+1000 units).start, then copy(), s&s, s|s, Timeline([s]).support()[0] and 50 "
         "re-wrappings; |result - x| <= unit/2 checked with fractions; monotonicity and ==/hash on neighbouring inputs; "
